@@ -245,11 +245,12 @@ PROPS = {
             "widths and values, unbounded): fixed-width fields (nbits, uint_lit, bool, bytes, bitarray are the same primitive at other widths) - for n >= 0 the value read is "
             "never rejected by the writer (no_out_of_range) and a view holding that value at that position holds exactly the bits read (bits_reproduced, by induction); "
             "unsigned exp-Golomb fields outside bounded blocks - a complete code is determined by the value it decodes to: same number of pairs (= what "
-            "exp_golomb_length says), same bits, same end position (stability_uint, via a closed form for the decoded value and injectivity of the data bits)",
+            "exp_golomb_length says), same bits, same end position (stability_uint, via a closed form for the decoded value and injectivity of the data bits); signed "
+            "exp-Golomb fields outside bounded blocks - magnitude code and sign bit are reproduced (stability_sint)",
             "PROVED: for a NEGATIVE width the reader returns 0 and consumes nothing while the writer rejects (0, n) - the primitives only agree if no negative width "
             "reaches them.  This is defect D3 (padding / auxiliary data with next_parse_offset < 13), repaired in /repo (known_findings.json: fixed); that no OTHER call "
             "site of bitstream/vc2.py passes a negative width is only bounded-checked (whole-stream round trips below)",
-            "BOUNDED (never counted as proved): signed exp-Golomb fields, codes cut short by the end of a bounded block, bounded-block padding, the serdes framework in "
+            "BOUNDED (never counted as proved): codes cut short by the end of a bounded block, bounded-block padding, the serdes framework in "
             "between (C21) and the composition over the ~40 functions of bitstream/vc2.py: whole-stream deserialise -> serialise -> deserialise round trips over "
             "generated conformant and non-conformant streams (bounded/c06_roundtrip.py, families and counts in bounded_checks)",
         ],
@@ -258,9 +259,9 @@ PROPS = {
             technique="contract-based deductive verification: stability lemmas (read then write reproduces the bits) proved by induction over the spec functions that the "
                       "verified contracts of the real reader and writer share (pyvc + z3); whole-stream round trips of the real deserialiser/serialiser as a native bounded stand-in",
             text="For all tapes, positions and widths >= 0, writing back what the reader returned for a fixed-width field reproduces exactly the bits read and never raises "
-                 "OutOfRangeError; for unsigned exp-Golomb fields the code written has the same length and bits as the complete code read.  Negative widths are proved to be "
+                 "OutOfRangeError; for unsigned and signed exp-Golomb fields the code written has the same length and bits as the complete code read.  Negative widths are proved to be "
                  "the one place where reader and writer disagree (defect D3, repaired).",
-            note="Signed exp-Golomb, bounded-block truncation, serdes and the composition over bitstream/vc2.py are bounded only (deserialise->serialise->deserialise of "
+            note="Bounded-block truncation, serdes and the composition over bitstream/vc2.py are bounded only (deserialise->serialise->deserialise of "
                  "generated streams incl. field- and bit-level mutations).  The lemmas rest on C20's contracts of the real functions.",
         ),
     ),
